@@ -75,11 +75,15 @@ CHECKS["C13"] = ("model_checking",
     "Bounded: whole text <= 3 (quick) / 4 (thorough) unconstrained bytes; 1-byte mutations at a stride (quick) / every position (thorough) of 4 / 8 grammars. Flag parsing, file I/O, template expansion and goimports are outside. Findings F7a, F7b were fixed in /repo.",
     TECH + "symbolic grammar text through the real front end, optimizer and builder", "§3 C13")
 
+CHECKS["C03"] = ("model_checking",
+    "The real generated front end (pigeon.go with all its actions) is executed by the engine: (1) round trip - every catalogue AST printed in four layouts parses back to exactly that AST including the position of every node; (2) holes with symbolic bytes in concrete skeletons - layout and comments between tokens, escape bodies in both quotings against a reference decoder, class bodies against a reference for the documented notation, prefix/suffix operators against the binding-strength table, identifiers: the solver proves acceptance and AST equality for all hole contents within the stated validity assumption.",
+    "Bounded: holes of <= 2 (quick) / 3 (thorough) layout bytes, comment bodies of 2 bytes, escapes of length 1,3 (5,9 thorough), class bodies <= 3 / 4 printable ASCII bytes, identifiers <= 2 / 3 ASCII chars; only 'valid text => accepted with the denoted AST' is asserted (nothing about invalid text). Expected ASTs come from the catalogue printer.",
+    TECH + "symbolic holes in grammar skeletons through the real front end; concrete round trip", "§3 C03")
+
 NOT_BUILT = {
 }
 
 NA = {
-    "C03": "not built yet (front-end checks are in progress)",
     "C04": "not built yet",
     "C18": "not built yet",
     "C20": "not built yet",
